@@ -215,62 +215,98 @@ type edStep struct {
 }
 
 var edSteps = []edStep{
-	{"Abs", func(e *apd.ErrDecimal, p []*apd.Decimal, a, b, d int, aux int32) (int, int64) { e.Abs(p[d], p[a]); return 0, 0 },
+	{"Abs", func(e *apd.ErrDecimal, p []*apd.Decimal, a, b, d int, aux int32) (int, int64) {
+		e.Abs(p[d], p[a])
+		return 0, 0
+	},
 		func(c *apd.Context, p []*apd.Decimal, a, b, d int, aux int32) (apd.Condition, error, int, int64) {
 			r, err := c.Abs(p[d], p[a])
 			return r, err, 0, 0
 		}},
-	{"Add", func(e *apd.ErrDecimal, p []*apd.Decimal, a, b, d int, aux int32) (int, int64) { e.Add(p[d], p[a], p[b]); return 0, 0 },
+	{"Add", func(e *apd.ErrDecimal, p []*apd.Decimal, a, b, d int, aux int32) (int, int64) {
+		e.Add(p[d], p[a], p[b])
+		return 0, 0
+	},
 		func(c *apd.Context, p []*apd.Decimal, a, b, d int, aux int32) (apd.Condition, error, int, int64) {
 			r, err := c.Add(p[d], p[a], p[b])
 			return r, err, 0, 0
 		}},
-	{"Ceil", func(e *apd.ErrDecimal, p []*apd.Decimal, a, b, d int, aux int32) (int, int64) { e.Ceil(p[d], p[a]); return 0, 0 },
+	{"Ceil", func(e *apd.ErrDecimal, p []*apd.Decimal, a, b, d int, aux int32) (int, int64) {
+		e.Ceil(p[d], p[a])
+		return 0, 0
+	},
 		func(c *apd.Context, p []*apd.Decimal, a, b, d int, aux int32) (apd.Condition, error, int, int64) {
 			r, err := c.Ceil(p[d], p[a])
 			return r, err, 0, 0
 		}},
-	{"Exp", func(e *apd.ErrDecimal, p []*apd.Decimal, a, b, d int, aux int32) (int, int64) { e.Exp(p[d], p[a]); return 0, 0 },
+	{"Exp", func(e *apd.ErrDecimal, p []*apd.Decimal, a, b, d int, aux int32) (int, int64) {
+		e.Exp(p[d], p[a])
+		return 0, 0
+	},
 		func(c *apd.Context, p []*apd.Decimal, a, b, d int, aux int32) (apd.Condition, error, int, int64) {
 			r, err := c.Exp(p[d], p[a])
 			return r, err, 0, 0
 		}},
-	{"Floor", func(e *apd.ErrDecimal, p []*apd.Decimal, a, b, d int, aux int32) (int, int64) { e.Floor(p[d], p[a]); return 0, 0 },
+	{"Floor", func(e *apd.ErrDecimal, p []*apd.Decimal, a, b, d int, aux int32) (int, int64) {
+		e.Floor(p[d], p[a])
+		return 0, 0
+	},
 		func(c *apd.Context, p []*apd.Decimal, a, b, d int, aux int32) (apd.Condition, error, int, int64) {
 			r, err := c.Floor(p[d], p[a])
 			return r, err, 0, 0
 		}},
-	{"Ln", func(e *apd.ErrDecimal, p []*apd.Decimal, a, b, d int, aux int32) (int, int64) { e.Ln(p[d], p[a]); return 0, 0 },
+	{"Ln", func(e *apd.ErrDecimal, p []*apd.Decimal, a, b, d int, aux int32) (int, int64) {
+		e.Ln(p[d], p[a])
+		return 0, 0
+	},
 		func(c *apd.Context, p []*apd.Decimal, a, b, d int, aux int32) (apd.Condition, error, int, int64) {
 			r, err := c.Ln(p[d], p[a])
 			return r, err, 0, 0
 		}},
-	{"Log10", func(e *apd.ErrDecimal, p []*apd.Decimal, a, b, d int, aux int32) (int, int64) { e.Log10(p[d], p[a]); return 0, 0 },
+	{"Log10", func(e *apd.ErrDecimal, p []*apd.Decimal, a, b, d int, aux int32) (int, int64) {
+		e.Log10(p[d], p[a])
+		return 0, 0
+	},
 		func(c *apd.Context, p []*apd.Decimal, a, b, d int, aux int32) (apd.Condition, error, int, int64) {
 			r, err := c.Log10(p[d], p[a])
 			return r, err, 0, 0
 		}},
-	{"Mul", func(e *apd.ErrDecimal, p []*apd.Decimal, a, b, d int, aux int32) (int, int64) { e.Mul(p[d], p[a], p[b]); return 0, 0 },
+	{"Mul", func(e *apd.ErrDecimal, p []*apd.Decimal, a, b, d int, aux int32) (int, int64) {
+		e.Mul(p[d], p[a], p[b])
+		return 0, 0
+	},
 		func(c *apd.Context, p []*apd.Decimal, a, b, d int, aux int32) (apd.Condition, error, int, int64) {
 			r, err := c.Mul(p[d], p[a], p[b])
 			return r, err, 0, 0
 		}},
-	{"Neg", func(e *apd.ErrDecimal, p []*apd.Decimal, a, b, d int, aux int32) (int, int64) { e.Neg(p[d], p[a]); return 0, 0 },
+	{"Neg", func(e *apd.ErrDecimal, p []*apd.Decimal, a, b, d int, aux int32) (int, int64) {
+		e.Neg(p[d], p[a])
+		return 0, 0
+	},
 		func(c *apd.Context, p []*apd.Decimal, a, b, d int, aux int32) (apd.Condition, error, int, int64) {
 			r, err := c.Neg(p[d], p[a])
 			return r, err, 0, 0
 		}},
-	{"Pow", func(e *apd.ErrDecimal, p []*apd.Decimal, a, b, d int, aux int32) (int, int64) { e.Pow(p[d], p[a], p[b]); return 0, 0 },
+	{"Pow", func(e *apd.ErrDecimal, p []*apd.Decimal, a, b, d int, aux int32) (int, int64) {
+		e.Pow(p[d], p[a], p[b])
+		return 0, 0
+	},
 		func(c *apd.Context, p []*apd.Decimal, a, b, d int, aux int32) (apd.Condition, error, int, int64) {
 			r, err := c.Pow(p[d], p[a], p[b])
 			return r, err, 0, 0
 		}},
-	{"Quantize", func(e *apd.ErrDecimal, p []*apd.Decimal, a, b, d int, aux int32) (int, int64) { e.Quantize(p[d], p[a], aux); return 0, 0 },
+	{"Quantize", func(e *apd.ErrDecimal, p []*apd.Decimal, a, b, d int, aux int32) (int, int64) {
+		e.Quantize(p[d], p[a], aux)
+		return 0, 0
+	},
 		func(c *apd.Context, p []*apd.Decimal, a, b, d int, aux int32) (apd.Condition, error, int, int64) {
 			r, err := c.Quantize(p[d], p[a], aux)
 			return r, err, 0, 0
 		}},
-	{"Quo", func(e *apd.ErrDecimal, p []*apd.Decimal, a, b, d int, aux int32) (int, int64) { e.Quo(p[d], p[a], p[b]); return 0, 0 },
+	{"Quo", func(e *apd.ErrDecimal, p []*apd.Decimal, a, b, d int, aux int32) (int, int64) {
+		e.Quo(p[d], p[a], p[b])
+		return 0, 0
+	},
 		func(c *apd.Context, p []*apd.Decimal, a, b, d int, aux int32) (apd.Condition, error, int, int64) {
 			r, err := c.Quo(p[d], p[a], p[b])
 			return r, err, 0, 0
@@ -291,22 +327,34 @@ var edSteps = []edStep{
 			n, r, err := c.Reduce(p[d], p[a])
 			return r, err, n, 0
 		}},
-	{"Rem", func(e *apd.ErrDecimal, p []*apd.Decimal, a, b, d int, aux int32) (int, int64) { e.Rem(p[d], p[a], p[b]); return 0, 0 },
+	{"Rem", func(e *apd.ErrDecimal, p []*apd.Decimal, a, b, d int, aux int32) (int, int64) {
+		e.Rem(p[d], p[a], p[b])
+		return 0, 0
+	},
 		func(c *apd.Context, p []*apd.Decimal, a, b, d int, aux int32) (apd.Condition, error, int, int64) {
 			r, err := c.Rem(p[d], p[a], p[b])
 			return r, err, 0, 0
 		}},
-	{"Round", func(e *apd.ErrDecimal, p []*apd.Decimal, a, b, d int, aux int32) (int, int64) { e.Round(p[d], p[a]); return 0, 0 },
+	{"Round", func(e *apd.ErrDecimal, p []*apd.Decimal, a, b, d int, aux int32) (int, int64) {
+		e.Round(p[d], p[a])
+		return 0, 0
+	},
 		func(c *apd.Context, p []*apd.Decimal, a, b, d int, aux int32) (apd.Condition, error, int, int64) {
 			r, err := c.Round(p[d], p[a])
 			return r, err, 0, 0
 		}},
-	{"Sqrt", func(e *apd.ErrDecimal, p []*apd.Decimal, a, b, d int, aux int32) (int, int64) { e.Sqrt(p[d], p[a]); return 0, 0 },
+	{"Sqrt", func(e *apd.ErrDecimal, p []*apd.Decimal, a, b, d int, aux int32) (int, int64) {
+		e.Sqrt(p[d], p[a])
+		return 0, 0
+	},
 		func(c *apd.Context, p []*apd.Decimal, a, b, d int, aux int32) (apd.Condition, error, int, int64) {
 			r, err := c.Sqrt(p[d], p[a])
 			return r, err, 0, 0
 		}},
-	{"Sub", func(e *apd.ErrDecimal, p []*apd.Decimal, a, b, d int, aux int32) (int, int64) { e.Sub(p[d], p[a], p[b]); return 0, 0 },
+	{"Sub", func(e *apd.ErrDecimal, p []*apd.Decimal, a, b, d int, aux int32) (int, int64) {
+		e.Sub(p[d], p[a], p[b])
+		return 0, 0
+	},
 		func(c *apd.Context, p []*apd.Decimal, a, b, d int, aux int32) (apd.Condition, error, int, int64) {
 			r, err := c.Sub(p[d], p[a], p[b])
 			return r, err, 0, 0
@@ -327,7 +375,9 @@ var edSteps = []edStep{
 			r, err := c.RoundToIntegralExact(p[d], p[a])
 			return r, err, 0, 0
 		}},
-	{"Int64", func(e *apd.ErrDecimal, p []*apd.Decimal, a, b, d int, aux int32) (int, int64) { return 0, e.Int64(p[a]) },
+	{"Int64", func(e *apd.ErrDecimal, p []*apd.Decimal, a, b, d int, aux int32) (int, int64) {
+		return 0, e.Int64(p[a])
+	},
 		func(c *apd.Context, p []*apd.Decimal, a, b, d int, aux int32) (apd.Condition, error, int, int64) {
 			v, err := p[a].Int64()
 			return 0, err, 0, v
